@@ -90,7 +90,7 @@ class PState:
 class Explorer:
     def __init__(self, prog, inline=None, summaries=None, max_depth=4, max_paths=200000,
                  effects=None, distinct_roots=True, loop_bound=2, on_unknown_call=None,
-                 nondet_fields=()):
+                 nondet_fields=(), field_values=None):
         self.prog = prog
         self.inline = inline or (lambda name, fn: False)
         self.summaries = summaries or {}
@@ -102,6 +102,9 @@ class Explorer:
         self.loop_bound = loop_bound
         self.on_unknown_call = on_unknown_call
         self.nondet_fields = set(nondet_fields)
+        # default value of a (record, field) when the store has no entry for
+        # the location read (lets a rule model "every such field holds X")
+        self.field_values = dict(field_values or {})
 
     # ---- store helpers -------------------------------------------------
     @staticmethod
@@ -359,6 +362,9 @@ class Explorer:
                 if loc is not None and loc[1] and isinstance(loc[1][-1], tuple) and \
                         loc[1][-1] in self.nondet_fields:
                     return TOP
+                if loc is not None and loc not in st.store and loc[1] and \
+                        isinstance(loc[1][-1], tuple) and loc[1][-1] in self.field_values:
+                    return self.field_values[loc[1][-1]]
                 return self.load(st.store, loc)
             if ck == "ArrayToPointerDecay":
                 loc = self.L(f, fid, c[0], st)
